@@ -71,7 +71,7 @@ static void c08_make_auth (DBusAuthServer *S)
   S->failures = nondet_int (); S->max_failures = nondet_int ();
   g_mech_ok = nondet_int (); g_dirty = nondet_int (); g_evidence = 0;
   __CPROVER_assume (g_mech_ok >= 0 && g_mech_ok <= 3 && g_dirty >= 0 && g_dirty <= 3);
-  g_watch_out = &a->outgoing; g_watch_in = &a->incoming; g_out_lines = 0; g_out_last = 0; g_out_names = 0; g_snap_next = 0; g_snap[0].valid = 0; g_snap[1].valid = 0; g_snap[2].valid = 0; g_snap[3].valid = 0; g_in_deleted = 0; g_in_other_edit = 0;
+  g_watch_out = &a->outgoing; g_reply_buf = &a->outgoing; g_watch_in = &a->incoming; g_out_lines = 0; g_out_last = 0; g_out_names = 0; g_snap_next = 0; g_snap[0].valid = 0; g_snap[1].valid = 0; g_snap[2].valid = 0; g_snap[3].valid = 0; g_in_deleted = 0; g_in_other_edit = 0;
   g_str_live = 0; g_fb_str = NULL; g_ascii_ok_str = NULL;
 }
 
@@ -80,7 +80,7 @@ static void c08_make_auth (DBusAuthServer *S)
 static void c08_note_sent (int kind)
 { /* a reply line is appended to outgoing (its text is the business of the send_* units) */
   int n = nondet_int (); __CPROVER_assume (n >= 4 && n <= 8192);
-  if (g_watch_out != NULL && SLIVE (g_watch_out)) { __CPROVER_assume (n <= STR_MAX - SLEN (g_watch_out)); SM (g_watch_out)->len += n; }
+  if (g_reply_buf != NULL && SLIVE (g_reply_buf)) { __CPROVER_assume (n <= STR_MAX - SLEN (g_reply_buf)); SM (g_reply_buf)->len += n; }
   G.sent++; G.last = kind; }
 /* shutdown_mech: "Cancel any auth": forget the requested and the granted identity and the mechanism */
 static void c08_effect_shutdown (DBusAuth *a)
